@@ -6,7 +6,7 @@
        defects are INVISIBLE (every array has a negative entry; normalize_factors=True; increasing order and 2-D input;
        more than one column) are theorems too - they are what the generators of the harness have to avoid. *)
 From Coq Require Import List Arith ZArith Bool Lia.
-From TLV Require Import Model.Effects Model.EffectsR7 Proofs.EffectsProofs Proofs.EffectsProofsGen.
+From TLV Require Import Model.Effects Model.EffectsR7 Proofs.EffectsProofs Proofs.EffectsProofsGen Proofs.EffectsProofsR5.
 Import ListNotations.
 
 (* ------------------------------------------------------------------ variables a command does not assign keep their abstract value *)
@@ -462,3 +462,10 @@ Theorem monotonicity_prox_frame : forall dec vec rows cols, unchanged_even_if_in
 Proof. intros. apply safe_unchanged_raise, monotonicity_prox_safe. Qed.
 Theorem unimodality_prox_frame : forall vec rows cols, unchanged_even_if_interrupted 1 (sk_unimodality_prox vec rows cols).
 Proof. intros. apply safe_unchanged_raise, unimodality_prox_safe. Qed.
+
+(* the estimator class Tucker_NN: est.fit_transform(tensor) with the receiver holding the user init (one option attribute): of the
+   caller's heap ONLY the receiver object changes, for every order / sweep count / update order / normalisation *)
+Theorem nn_tucker_class_fit_frame : forall N sweeps normalize modes (self X : ref) (h0 : heap) (o : nat),
+  o < length h0 -> target self <> Some o ->
+  nth_error (snd (exec (sk_estimator_fit 1 (sk_nn_tucker_gen N sweeps normalize modes) 25) (env0 [self; X], h0))) o = nth_error h0 o.
+Proof. intros. apply estimator_fit_frame; auto. apply nn_tucker_gen_safe. Qed.
